@@ -77,7 +77,8 @@ void archive::read_chunk(void *begin,size_t len)
 	if(next!=len)
 		throw archive_error("Invalid block length");
 	ptr_+=4;
-	memcpy(begin,buffer_.c_str()+ptr_,len);
+	if(len > 0)
+		memcpy(begin,buffer_.c_str()+ptr_,len);
 	ptr_+=len;
 }
 
